@@ -1,13 +1,22 @@
 (* DrainageR.v — theorems about Water/Drainage.v at the real instance.
 
-   Main results (profiles of any length; predicates of ProfR.v):
-     drainage_balance            storage p th' + DeepPerc = storage p th                       (C01)
-     drainage_balance_refuted    without in_bounds (th_0 > th_s) water is lost at the soil surface
-     drainage_bounds             in_bounds p th'                                               (C03)
-     drainage_lower              th'_i >= min(th_i, th_fc_i)
+   Main results (profiles of any length; predicates of ProfR.v; hypotheses H := wf_prof p, in_bounds p th, fcadj_ok p fc,
+   drainage p th fc = Some (th', DeepPerc, flux)):
+     drainage_balance              H -> storage p th' + DeepPerc = storage p th                       (C01)
+     drainage_balance_refuted      without in_bounds (th_0 > th_s) 9 mm are lost at the soil surface
+     drainage_bounds               H -> in_bounds p th'                                               (C03)
+     drainage_lower                H -> th'_i >= min(th_i, th_fc_i)  (Forall3)
      drainage_lower_fcadj_refuted  th'_i >= min(th_i, fcadj_i) does NOT hold (over-saturation arm)
-     drainage_deep_perc_nonneg, drainage_flux_nonneg, drainage_flux_le_ksat                    (C04)
-     drainage_length, drainage_defined, drainage_none, drainage_denominators
+     drainage_deep_perc_nonneg     H -> 0 <= DeepPerc                                                 (C04)
+     drainage_flux_range           H -> Forall2 (fun c f => 0 <= f <= c_ksat c) p flux                (C04)
+     drainage_flux_nonneg, drainage_flux_le_ksat   (corollaries in the shapes other units consume)
+     drainage_deep_perc_last       DeepPerc = last flux 0                 (no hypotheses)
+     drainage_length               length th' = length th /\ length flux = length th  (no hypotheses)
+     drainage_defined_iff          Some _  <->  length th <= length p /\ length th <= length fc
+     drainage_defined              the instance asked for (equal lengths)
+     drainage_denominators         every evaluated denominator is non-zero / log argument positive
+                                   (needs dz < dzsum below the first compartment: [dzsum_ok])
+     drainage_example              concrete 2-compartment run: hypotheses satisfiable, result computed
 
    Proof idea.  The processed compartments (nearest first) satisfy the suffix-conservation invariant [FInv]:
    for every processed compartment j,  FluxOut[j] = (initial storage of 0..j) - (current storage of 0..j),
@@ -683,11 +692,62 @@ Qed.
 (* ------------------------------------------------------------------------------------------------ *)
 (** * Concrete instances *)
 
-Ltac rdecide :=
-  repeat (match goal with
-  | |- context [Rleb ?a ?b] => no_if a; no_if b; first [rewrite (Rleb_true a b) by lra | rewrite (Rleb_false a b) by lra]
-  | |- context [Rltb ?a ?b] => no_if a; no_if b; first [rewrite (Rltb_true a b) by lra | rewrite (Rltb_false a b) by lra]
-  end; cbv beta iota).
+(* branch equations used to evaluate the model on concrete reals without unfolding everything at once *)
+Lemma drain_ability_zero c adj th : th <= adj -> drain_ability c adj th = 0.
+Proof. intros H. unfold drain_ability. rnum. rewrite Rleb_true by exact H. reflexivity. Qed.
+
+Lemma drain_ability_sat c adj th :
+  adj < th -> c_th_s c <= th -> adj <= th - c_tau c * (c_th_s c - c_th_fc c) ->
+  drain_ability c adj th = c_tau c * (c_th_s c - c_th_fc c).
+Proof.
+  intros H1 H2 H3. unfold drain_ability. rnum. rewrite Rleb_false by exact H1. cbv zeta.
+  rewrite (Rleb_true (c_th_s c) th) by exact H2. rewrite Rltb_false by exact H3. reflexivity.
+Qed.
+
+Lemma drain_cap_id c ds ex : ds <= c_ksat c -> drain_cap c ds ex = (ds, ex).
+Proof. intros H. unfold drain_cap. rnum. rewrite Rltb_false by exact H. reflexivity. Qed.
+Lemma drain_cap_over c ds ex : c_ksat c < ds -> drain_cap c ds ex = (c_ksat c, ex + ds - c_ksat c).
+Proof. intros H. unfold drain_cap. rnum. rewrite Rltb_true by exact H. reflexivity. Qed.
+
+Lemma drain_comp_drainable c t adj ds :
+  ds <= drain_ability c adj t * 1000 * (c_dzsum c - c_dz c) ->
+  drain_comp c t adj ds =
+  (t - drain_ability c adj t,
+   fst (drain_cap c (ds + drain_ability c adj t * c_dz c * 1000) 0),
+   snd (drain_cap c (ds + drain_ability c adj t * c_dz c * 1000) 0)).
+Proof. intros H. unfold drain_comp. rnum. rewrite Rleb_true by exact H. reflexivity. Qed.
+
+Lemma drain_comp_oversat c t adj ds :
+  drain_ability c adj t * 1000 * (c_dzsum c - c_dz c) < ds ->
+  c_th_s c < drain_thX c adj (ds / (1000 * (c_dzsum c - c_dz c))) ->
+  c_th_s c < t + ds / (1000 * c_dz c) ->
+  drain_comp c t adj ds =
+  let thn := t + ds / (1000 * c_dz c) in
+  let ex0 := (thn - c_th_s c) * 1000 * c_dz c in
+  let d := drain_ability c adj thn in
+  let dm0 := d * 1000 * (c_dzsum c - c_dz c) in
+  let dm := if Rltb ex0 dm0 then ex0 else dm0 in
+  (c_th_s c - d, fst (drain_cap c (d * 1000 * c_dz c + dm) (ex0 - dm)), snd (drain_cap c (d * 1000 * c_dz c + dm) (ex0 - dm))).
+Proof.
+  intros H1 H2 H3. unfold drain_comp. rnum. rewrite Rleb_false by exact H1. cbv zeta.
+  rewrite (Rleb_false (drain_thX _ _ _)) by exact H2. rewrite (Rltb_true (c_th_s c) (drain_thX _ _ _)) by exact H2.
+  rewrite (Rleb_false (t + _)) by exact H3. rewrite (Rltb_true (c_th_s c) (t + _)) by exact H3. reflexivity.
+Qed.
+
+Lemma drain_push_stop b c t f D : drain_push b 0 ((c, t, f) :: D) = ((c, t, f) :: D, 0).
+Proof. cbn [drain_push]. rnum. rewrite Rltb_false by lra. reflexivity. Qed.
+Lemma drain_push_fit c t f D e : 0 < e -> t + e / (1000 * c_dz c) <= c_th_s c ->
+  drain_push true e ((c, t, f) :: D) = ((c, t + e / (1000 * c_dz c), f) :: D, 0).
+Proof.
+  intros H1 H2. cbn [drain_push]. rnum. cbn [dd_comp dd_th dd_fl fst snd]. rewrite Rltb_true by exact H1. cbv zeta.
+  rewrite Rltb_false by exact H2. reflexivity.
+Qed.
+Lemma drain_push_surface c t f e : 0 < e -> c_th_s c < t + e / (1000 * c_dz c) ->
+  drain_push true e [(c, t, f)] = ([(c, c_th_s c, f)], (t + e / (1000 * c_dz c) - c_th_s c) * 1000 * c_dz c).
+Proof.
+  intros H1 H2. cbn [drain_push]. rnum. cbn [dd_comp dd_th dd_fl fst snd]. rewrite Rltb_true by exact H1. cbv zeta.
+  rewrite Rltb_true by exact H2. reflexivity.
+Qed.
 
 Definition mkc (dz dzsum fc s tau ks : R) : Comp R :=
   {| c_dz := dz; c_dzsum := dzsum; c_zmid := dzsum - dz / 2; c_layer := 1; c_th_dry := 5/100; c_th_wp := 1/10;
@@ -698,6 +758,9 @@ Ltac cfields := cbn [mkc c_dz c_dzsum c_th_dry c_th_wp c_th_fc c_th_s c_ksat c_t
 Lemma mkc_wf dz dzsum fc s tau ks :
   0 < dz -> 1/10 < fc -> fc < s -> 0 < tau <= 1 -> 0 < ks -> wf_comp (mkc dz dzsum fc s tau ks).
 Proof. intros; constructor; cfields; lra. Qed.
+
+Lemma triple_eq (a b c a' b' c' : R) : a = a' -> b = b' -> c = c' -> (a, b, c) = (a', b', c').
+Proof. intros; subst; reflexivity. Qed.
 
 (* two 0.1 m compartments, th_fc 0.30, th_s 0.50, tau 0.30 / 0.25, Ksat 1000 mm/day; both saturated;
    the lower one has its field capacity adjusted up to saturation (water table) *)
@@ -716,20 +779,30 @@ Proof.
   - repeat constructor; cfields; lra.
 Qed.
 
-Lemma ex_comp1 : drain_comp ex_c1 (1/2) (3/10) 0 = (1/2 - 3/10 * (1/2 - 3/10), 0 + 3/10 * (1/2 - 3/10) * (1/10) * 1000, 0).
+Ltac exc := unfold ex_c1, ex_c2; cfields; lra.
+
+Lemma ex_comp1 : drain_comp ex_c1 (1/2) (3/10) 0 = (44/100, 6, 0).
 Proof.
-  unfold drain_comp, drain_ability, drain_cap, ex_c1. rnum. cfields. rdecide. reflexivity.
+  assert (Ha : drain_ability ex_c1 (3/10) (1/2) = 3/10 * (1/2 - 3/10)) by (rewrite drain_ability_sat by exc; reflexivity).
+  rewrite drain_comp_drainable by (rewrite Ha; exc). rewrite Ha.
+  rewrite drain_cap_id by exc. cbn [fst snd]. apply triple_eq; exc.
 Qed.
 
-Lemma ex_comp2 : drain_comp ex_c2 (1/2) (1/2) 6 = (1/2 - 1/4 * (1/2 - 3/10), 10, 1).
+Lemma ex_comp2 : drain_comp ex_c2 (1/2) (1/2) 6 = (45/100, 10, 1).
 Proof.
-  assert (HX : c_th_s ex_c2 < drain_thX ex_c2 (1/2) (6 / (1000 * (c_dzsum ex_c2 - c_dz ex_c2)))).
-  { apply drain_thX_over; [apply mkc_wf; lra | unfold ex_c2; cfields; lra | unfold ex_c2; cfields; lra]. }
-  unfold drain_comp. rnum.
-  set (thX := drain_thX ex_c2 (1/2) _) in *. clearbody thX.
-  unfold drain_ability, drain_cap, ex_c2 in *. rnum. cfields. rdecide.
-  assert (E : forall a b c a' b' c' : R, a = a' -> b = b' -> c = c' -> (a, b, c) = (a', b', c')) by (intros; subst; reflexivity).
-  cbn [fst snd]. apply E; lra.
+  assert (Ha : drain_ability ex_c2 (1/2) (1/2) = 0) by (apply drain_ability_zero; lra).
+  assert (Hn : 1/2 + 6 / (1000 * c_dz ex_c2) = 56/100) by exc.
+  rewrite drain_comp_oversat.
+  - cbv zeta. rewrite Hn.
+    assert (Hb : drain_ability ex_c2 (1/2) (56/100) = 1/4 * (1/2 - 3/10)) by (rewrite drain_ability_sat by exc; reflexivity).
+    rewrite Hb.
+    replace ((56/100 - c_th_s ex_c2) * 1000 * c_dz ex_c2) with 6 by exc.
+    replace (1/4 * (1/2 - 3/10) * 1000 * (c_dzsum ex_c2 - c_dz ex_c2)) with 5 by exc.
+    rewrite (Rltb_false 6 5) by lra.
+    rewrite drain_cap_id by exc. cbn [fst snd]. apply triple_eq; exc.
+  - rewrite Ha. exc.
+  - apply drain_thX_over; [apply mkc_wf; lra | exc | exc].
+  - rewrite Hn. exc.
 Qed.
 
 (* the hypotheses of drainage_balance / _bounds / _deep_perc_nonneg / _flux_range / _lower are satisfiable, and the
@@ -739,17 +812,11 @@ Example drainage_example :
   drainage ex_p ex_th ex_fc = Some ([44/100; 46/100], 10, [6; 10]).
 Proof.
   destruct ex_wf as (H1 & H2 & H3 & _). repeat split; try assumption.
-  unfold drainage, ex_p, ex_th, ex_fc. cbn [drain_loop].
-  pose proof ex_comp1 as E1. pose proof ex_comp2 as E2. rnum.
-  rewrite E1. cbn [fst snd].
-  replace (0 + 3/10 * (1/2 - 3/10) * (1/10) * 1000) with 6 by lra.
-  cbn [drain_push]. rnum. rdecide. cbn [fst snd].
-  rewrite E2. cbn [fst snd].
-  cbn [drain_push]. rnum. cbn [dd_comp dd_th dd_fl fst snd]. unfold ex_c1, ex_c2. cfields. rdecide.
+  unfold drainage, ex_p, ex_th, ex_fc. cbn [drain_loop]. change (#0)%num with 0.
+  rewrite ex_comp1. cbn [fst snd]. rewrite drain_push_stop. cbn [fst snd].
+  rewrite ex_comp2. cbn [fst snd]. rewrite drain_push_fit by exc.
   cbn [fst snd map rev app dd_th dd_fl].
-  assert (E : forall a b dp f1 f2 : R, a = 44/100 -> b = 46/100 -> dp = 10 -> f1 = 6 -> f2 = 10 ->
-              Some ([a; b], dp, [f1; f2]) = Some ([44/100; 46/100], 10, [6; 10])) by (intros; subst; reflexivity).
-  apply E; lra.
+  replace (45/100 + 1 / (1000 * c_dz ex_c2)) with (46/100) by exc. reflexivity.
 Qed.
 
 Example drainage_balance_example : storage ex_p [44/100; 46/100] + 10 = storage ex_p ex_th.
@@ -780,6 +847,14 @@ Qed.
    10 mm drain, 9 mm exceed Ksat and are pushed back, the compartment is capped at th_s and the remaining 9 mm
    reach the soil surface, where the code drops them. *)
 Definition bad_c : Comp R := mkc (1/10) (1/10) (3/10) (1/2) (1/2) 1.
+Ltac badc := unfold bad_c; cfields; lra.
+
+Lemma bad_comp : drain_comp bad_c (6/10) (3/10) 0 = (1/2, 1, 9).
+Proof.
+  assert (Ha : drain_ability bad_c (3/10) (6/10) = 1/2 * (1/2 - 3/10)) by (rewrite drain_ability_sat by badc; reflexivity).
+  rewrite drain_comp_drainable by (rewrite Ha; badc). rewrite Ha.
+  rewrite drain_cap_over by badc. cbn [fst snd]. apply triple_eq; badc.
+Qed.
 
 Theorem drainage_balance_refuted :
   exists p th fc th' dp fl,
@@ -788,10 +863,9 @@ Theorem drainage_balance_refuted :
 Proof.
   exists [bad_c], [6/10], [3/10], [1/2], 1, [1].
   repeat split.
-  - repeat constructor; unfold bad_c; cfields; lra.
-  - repeat constructor; unfold bad_c; cfields; lra.
-  - unfold drainage. cbn [drain_loop]. unfold drain_comp, drain_ability, drain_cap, bad_c. rnum. cfields. rdecide.
-    cbn [fst snd drain_push]. rnum. cbn [dd_comp dd_th dd_fl fst snd]. cfields. rdecide.
-    cbn [fst snd map rev app dd_th dd_fl]. reflexivity.
-  - rewrite !storage_cons, !storage_nil_l. unfold W, bad_c. cfields. lra.
+  - repeat constructor; badc.
+  - repeat constructor; badc.
+  - unfold drainage. cbn [drain_loop]. change (#0)%num with 0. rewrite bad_comp. cbn [fst snd].
+    rewrite drain_push_surface by badc. cbn [fst snd map rev app dd_th dd_fl]. reflexivity.
+  - rewrite !storage_cons, !storage_nil_l. unfold W. badc.
 Qed.
